@@ -19,6 +19,8 @@ pub enum Ev {
     Acquired(i32),
     Computed(i32),
     Exited(i32, bool),
+    /// the loop thread took a notification and is about to ask for exclusive access to the server
+    Taken(String),
     Applied(String),
     LoopPanicked(String),
 }
@@ -75,6 +77,7 @@ pub fn install_router_hook() {
             Event::Acquired(id) => (Ev::Acquired(id_of(id)), Some((id_of(id), Phase::Acquired))),
             Event::Computed(id) => (Ev::Computed(id_of(id)), Some((id_of(id), Phase::Computed))),
             Event::Exited(id, p) => (Ev::Exited(id_of(id), *p), Some((id_of(id), Phase::Exited))),
+            Event::NotificationTaken(m) => (Ev::Taken(m.clone()), None),
             Event::NotificationApplied(m) => (Ev::Applied(m.clone()), None),
             Event::MessagePanicked(m) => (Ev::LoopPanicked(m.clone()), None),
         };
